@@ -111,7 +111,8 @@ macro_rules! dim_checks {
             pub fn mul_mat<S: Sc>(d: &mut Draw) -> Outcome {
                 let n = $n;
                 let ta = grm::<S>(d, n);
-                let tb = grm::<S>(d, n);
+                // now and then the same matrix on both sides (A * A)
+                let tb = if d.chance(1, 8) { ta } else { grm::<S>(d, n) };
                 d.note("A", &ta);
                 d.note("B", &tb);
                 let a = $mkm(&ta);
@@ -274,6 +275,71 @@ fn affine_ctors<S: Sc>(d: &mut Draw) -> Outcome {
     pass(if nt { "generic" } else { "degenerate" }, nt)
 }
 
+
+/// f64: products against the triple-loop reference with a rounding-only tolerance, on regimes an
+/// exact field cannot represent: near-identity matrices, entries of very different magnitude,
+/// sparse matrices, and aliased operands (A * A)
+fn products_f64(d: &mut Draw) -> Outcome {
+    let n = d.int(2, 4) as usize;
+    let class = d.int(0, 4);
+    let gen = |d: &mut Draw, class: i64| -> RM<f64> {
+        match class {
+            0 => RM::from_fn(n, |_, _| d.f64_slog(1e-3, 1e3)),
+            1 => {
+                // identity plus a tiny perturbation
+                let eps = d.f64_log(1e-17, 1e-6);
+                RM::from_fn(n, |c, r| if c == r { 1.0 } else { 0.0 } + eps * d.f64_in(-1.0, 1.0))
+            }
+            2 => RM::from_fn(n, |_, _| d.f64_slog(1e-150, 1e150)),
+            3 => RM::from_fn(n, |_, _| if d.chance(1, 2) { 0.0 } else { d.f64_slog(1e-3, 1e3) }),
+            _ => RM::from_fn(n, |c, r| if c == r { d.f64_slog(1e-3, 1e3) } else { 0.0 }),
+        }
+    };
+    let ta = gen(d, class);
+    let cb = d.int(0, 4);
+    let tb = if d.chance(1, 5) { ta } else { gen(d, cb) };
+    let v: Vec<f64> = (0..n).map(|_| d.f64_slog(1e-3, 1e3)).collect();
+    d.note("A", &ta);
+    d.note("B", &tb);
+    d.note("v", &v);
+    // reference products and the matching magnitude sums for the tolerance
+    let abs = |m: &RM<f64>| m.map(|x| x.abs());
+    let want = ta.mul(&tb);
+    let scale = abs(&ta).mul(&abs(&tb));
+    let got: RM<f64> = match n {
+        2 => (mk_m2(&ta) * mk_m2(&tb)).rm(),
+        3 => (mk_m3(&ta) * mk_m3(&tb)).rm(),
+        _ => (mk_m4(&ta) * mk_m4(&tb)).rm(),
+    };
+    for c in 0..n {
+        for r in 0..n {
+            let tol = 8.0 * f64::EPSILON * scale.e[c][r] + 1e-300;
+            ensure!((got.e[c][r] - want.e[c][r]).abs() <= tol || (got.e[c][r] == want.e[c][r]), "A*B-f64",
+                "element (c{},r{}) of A*B is {:e}, reference {:e}", c, r, got.e[c][r], want.e[c][r]);
+        }
+    }
+    let wantv = ta.mulv(&v);
+    let av: Vec<f64> = v.iter().map(|x| x.abs()).collect();
+    let scalev = abs(&ta).mulv(&av);
+    let gotv: Vec<f64> = match n {
+        2 => v2(mk_m2(&ta) * mk_v2(&v)).to_vec(),
+        3 => v3(mk_m3(&ta) * mk_v3(&v)).to_vec(),
+        _ => v4(mk_m4(&ta) * mk_v4(&v)).to_vec(),
+    };
+    for r in 0..n {
+        let tol = 8.0 * f64::EPSILON * scalev[r] + 1e-300;
+        ensure!((gotv[r] - wantv[r]).abs() <= tol, "A*v-f64", "component {} of A*v is {:e}, reference {:e}", r, gotv[r], wantv[r]);
+    }
+    // element-wise operations are exact per component
+    let sum: RM<f64> = match n {
+        2 => (mk_m2(&ta) + mk_m2(&tb)).rm(),
+        3 => (mk_m3(&ta) + mk_m3(&tb)).rm(),
+        _ => (mk_m4(&ta) + mk_m4(&tb)).rm(),
+    };
+    ensure!(sum == ta.add(&tb), "add-f64", "A + B is not element-wise in f64");
+    pass(["generic", "near-identity", "wide-magnitudes", "sparse", "diagonal"][class as usize], true)
+}
+
 const RULE: &str = "every entry of every operand non-zero and no operand symmetric (A != A^T)";
 const RULE_G: &str = "all generated scalars non-zero, scale factors pairwise distinct";
 
@@ -306,6 +372,8 @@ pub fn property() -> Property {
     s.push(sc!("embeddings-Fp", "Fp", embeddings::<Fp>, 2000, 100_000, 64, &[], RULE));
     s.push(sc!("affine_ctors-Q", "Q", affine_ctors::<Q>, 2000, 100_000, 288, &[("generic", 100)], RULE_G));
     s.push(sc!("affine_ctors-Fp", "Fp", affine_ctors::<Fp>, 2000, 100_000, 288, &[], RULE_G));
+    s.push(sc!("products-f64", "f64", products_f64, 6000, 400_000, 160,
+        &[("generic", 100), ("near-identity", 100), ("wide-magnitudes", 100), ("sparse", 100), ("diagonal", 100)], "every generated pair; regimes generic / near-identity / wide magnitudes / sparse / diagonal and aliased operands"));
     Property {
         id: "C01",
         title: "Matrix products follow the documented column-major, column-vector convention",
